@@ -190,6 +190,36 @@ def gen_loop_case(rng, max_seg=40):
     return c
 
 
+ASSUMPTIONS.append('closed loops with peers: in about a quarter of the random loops a second (sometimes a third) sender + sink pair with its own congestion-control '
+                   'object of the same class (Reno: other MSS / initial cwnd / ssthresh), its own flow size, paths, delays and drop sets runs in the same '
+                   'Environment, mostly under the same flow id; every pair is replayed through the sender LTS and the sink model as a case of its own and '
+                   'judged by the loop and sink oracles on its own events only')
+
+
+def gen_loop_group(rng, max_seg=40):
+    """a closed loop and, in about a quarter of the cases, one or two PEER loops (sender + sink + paths) in the same Environment:
+    "the TCPPacketGenerator keeps (re)transmitting until ITS sink holds every segment" - the ACK clock, the timers, the
+    in-flight table and the window of one connection are its own, whatever another connection with the same flow id, the
+    same sequence numbers and a congestion controller of the same class does next to it."""
+    c = gen_loop_case(rng, max_seg)
+    if rng.random() < 0.75:
+        return c
+    c['peers'] = []
+    for j in range(rng.choice([1, 1, 1, 2])):
+        p = gen_loop_case(rng, min(max_seg, 20))
+        p['cc'] = c['cc']
+        p.pop('ccmss', None)
+        if p['cc'] == 'reno':
+            if rng.random() < 0.5:
+                p['ccmss'] = rng.choice([100, 256, 512, 1000, 1460])
+            p['cwnd0'] = rng.choice([1, 1, 2, 4, 10])                   # initial window, in segments
+            p['ssthresh0'] = rng.choice([65535, 65535, 2048, 4096, 1024])
+        p['flow_id'] = 0 if rng.random() < 0.6 else j + 1
+        p['first'] = rng.random() < 0.3                                 # constructed before the loop under test
+        c['peers'].append(p)
+    return c
+
+
 def enum_loop_cases(max_seg, small=False):
     """all drop subsets of size <= 2 over the first transmissions of both directions, for small flows"""
     out = []
@@ -211,8 +241,7 @@ class Late:
         self.target.put(p)
 
 
-def run_loop_impl(case):
-    env = Environment()
+def build_loop(env, case):
     late = Late()
     sinklog = []
     with quiet():
@@ -222,11 +251,41 @@ def run_loop_impl(case):
     sink.out = ackpath
     datapath = Path(env, sink, case['ddelays'], case['ddrops'])
     seg = seg_of(case)
-    cc = make_cc(case['cc'], mss=seg, cwnd=max(512, seg))
-    sr = SenderRun(env, case['cc'], cc, case['rtt_estimate'], case['nseg'] * seg, datapath)
+    cc = make_cc(case['cc'], mss=seg, cwnd=max(512, seg) * case.get('cwnd0', 1), ssthresh=case.get('ssthresh0', 65535))
+    sr = SenderRun(env, case['cc'], cc, case['rtt_estimate'], case['nseg'] * seg, datapath, flow_id=case.get('flow_id', 0))
     late.target = sr
-    ended = sr.run(budget=LOOP_STEP_BUDGET)
-    return sr, sink, ended, sinklog, datapath, ackpath
+    return [sr, sink, None, sinklog, datapath, ackpath]
+
+
+def run_loop_group(case):
+    """the loop of `case` and the peer loops of its group in one Environment; returns [(sr, sink, ended, sinklog, datapath, ackpath)],
+    the loop under test first, then the peers in the order of case['peers']"""
+    env = Environment()
+    peers = case.get('peers') or []
+    built = {j: build_loop(env, p) for j, p in enumerate(peers) if p.get('first')}
+    main = build_loop(env, case)
+    for j, p in enumerate(peers):
+        if j not in built:
+            built[j] = build_loop(env, p)
+    group = [main] + [built[j] for j in range(len(peers))]
+    ended = main[0].run(peers=[g[0] for g in group[1:]], budget=LOOP_STEP_BUDGET)
+    for g in group:
+        g[2] = ended
+    return [tuple(g) for g in group]
+
+
+def run_loop_impl(case):
+    return run_loop_group(case)[0]
+
+
+def loop_units(i, c, res):
+    """[(key, label, sub-case, result tuple)] of one group"""
+    out = [(str(i), '', c, res[0])]
+    peers = c.get('peers') or []
+    for j, (pc, t) in enumerate(zip(peers, res[1:])):
+        cfg = {k: pc[k] for k in ('nseg', 'ccmss', 'cwnd0', 'ssthresh0', 'flow_id') if k in pc}
+        out.append((f'{i}.p{j + 1}', f'connection {j + 2} of {len(peers) + 1} in one Environment ({pc["cc"]}, {cfg}): ', pc, t))
+    return out
 
 
 def seg_of(case):
@@ -309,7 +368,10 @@ def load_replay(path):
 
 
 def clean(case):
-    return {k: v for k, v in case.items() if not k.startswith('_')}
+    out = {k: v for k, v in case.items() if not k.startswith('_')}
+    if out.get('peers'):
+        out['peers'] = [clean(p) for p in out['peers']]
+    return out
 
 
 def run(ctx):
@@ -321,7 +383,7 @@ def run(ctx):
         cases = [{'kind': 'sink', 'arrivals': [[512, 512], [0, 512], [1024, 512], [0, 512]]}]
         cases += [gen_sink_case(rng) for _ in range(n_sink)]
         cases += enum_loop_cases(4, small=True) if ctx.quick else enum_loop_cases(8)
-        cases += [gen_loop_case(rng) for _ in range(n_loop)]
+        cases += [gen_loop_group(rng) for _ in range(n_loop)]
     disagreements, oracle_failures = [], []
     hist = collections.Counter()
     samples = []
@@ -355,11 +417,12 @@ def run(ctx):
 
     # closed loops
     loops = [(i, c) for i, c in enumerate(cases) if c['kind'] == 'loop']
-    runs = {}
+    units = []
     stuck = 0
     for n, (i, c) in enumerate(loops):
-        runs[i] = run_loop_impl(c)
-        if not runs[i][2] or runs[i][0].error:
+        res = run_loop_group(c)
+        units += [(key, label, uc, c, t) for key, label, uc, t in loop_units(i, c, res)]
+        if not res[0][2] or res[0][0].error:
             stuck += 1
             if stuck >= 8:
                 # loop after loop fails to end: each costs its whole step budget and the finding is established
@@ -367,14 +430,21 @@ def run(ctx):
                 loops = loops[:n + 1]
                 cases = [cc for j, cc in enumerate(cases) if j not in dropped]
                 break
-    smodel = model_batch('tcpsender', [runs[i][0].text(i) for i, c in loops], 300)
-    kmodel = model_batch('tcpsink', [f'CASE {i}\n' + '\n'.join(f'P {pid} {runs[i][0].sender.mss}' for pid, a, b in runs[i][3]) + '\nEND'
-                                     for i, c in loops], 500)
+    smodel = model_batch('tcpsender', [t[0].text(key) for key, label, uc, c, t in units], 300)
+    kmodel = model_batch('tcpsink', [f'CASE {key}\n' + '\n'.join(f'P {pid} {t[0].sender.mss}' for pid, a, b in t[3]) + '\nEND'
+                                     for key, label, uc, c, t in units], 500)
     lines_compared = 0
-    for i, c in loops:
-        sr, sink, ended, sinklog, dpath, apath = runs[i]
-        m = smodel.get(str(i))
+    for key, label, uc, top, t in units:
+        sr, sink, ended, sinklog, dpath, apath = t
+        c = uc
+        m = smodel.get(key)
         lines_compared += len(sr.trace)
+        if label:
+            hist['peer-connections'] += 1
+            hist['peer-connections-same-flow-id'] += 1 if uc.get('flow_id', 0) == 0 else 0
+            hist['peer-connections-retransmissions'] += sum(len(r['tx']) for r in sr.records if r['tag'] in 'AF')
+        elif top.get('peers'):
+            hist['loops-with-peer-connections'] += 1
         for r in sr.records:
             hist['ev-' + r['tag']] += 1
             if r['tag'] == 'A':
@@ -399,30 +469,48 @@ def run(ctx):
         hist['dropped-acks'] += len(apath.dropped)
         if sr.trace != m:
             d = first_diff(sr.trace, m)
-            disagreements.append({'case': clean(c),
-                                  'detail': f'sender line {d[0]}: impl `{d[1][:300]}` model `{d[2][:300]}` {explain_diff(d[1], d[2])}',
+            disagreements.append({'case': clean(top),
+                                  'detail': f'{label}sender line {d[0]}: impl `{d[1][:300]}` model `{d[2][:300]}` {explain_diff(d[1], d[2])}',
                                   'impl': sr.lines[:d[0] // 2 + 4] + ['--'] + sr.trace[max(0, d[0] - 3):d[0] + 2],
                                   'model': (m or [])[max(0, d[0] - 3):d[0] + 2]})
         slines = [f'A {a} B ' + ','.join(f'{s}:{e}' for s, e in b) for pid, a, b in sinklog]
-        km = kmodel.get(str(i))
+        km = kmodel.get(key)
         if slines != km:
             d = first_diff(slines, km)
-            disagreements.append({'case': clean(c), 'detail': f'sink (in loop) arrival {d[0]}: impl `{d[1]}` model `{d[2]}`',
+            disagreements.append({'case': clean(top), 'detail': f'{label}sink (in loop) arrival {d[0]}: impl `{d[1]}` model `{d[2]}`',
                                   'impl': slines[:60], 'model': (km or [])[:60]})
         # the sink oracle applies inside the loop as well
         for f in sink_oracle({'arrivals': [[pid, sr.sender.mss] for pid, a, b in sinklog]}, [a for pid, a, b in sinklog], None):
-            f.update(case=clean(c), trace=slines[:80])
+            f.update(case=clean(top), trace=slines[:80], what=label + f['what'])
             oracle_failures.append(f)
         for f in loop_oracle(c, sr, sink, ended):
-            f.update(case=clean(c), trace=sr.lines[:200] + ['--'] + sr.trace[-6:])
+            f.update(case=clean(top), trace=sr.lines[:200] + ['--'] + sr.trace[-6:], what=label + f['what'])
             oracle_failures.append(f)
         if c.get('_timely'):
             hist['loop-lossfree-timely'] += 1
-        if dpath.dropped or apath.dropped or hist_retx(sr):
-            nontrivial.add(json.dumps(clean(c), sort_keys=True))
-        if len(samples) < 2 and dpath.dropped and apath.dropped and c['nseg'] <= 6:
-            samples.append({'closed_loop': clean(c), 'sender_events': sr.lines[:40],
-                            'final': {'last_ack': sr.sender.last_ack, 'recv_buffer': sink.recv_buffer}})
+        if not label:
+            if dpath.dropped or apath.dropped or hist_retx(sr):
+                nontrivial.add(json.dumps(clean(top), sort_keys=True))
+            if len(samples) < 2 and dpath.dropped and apath.dropped and c['nseg'] <= 6 and not top.get('peers'):
+                samples.append({'closed_loop': clean(c), 'sender_events': sr.lines[:40],
+                                'final': {'last_ack': sr.sender.last_ack, 'recv_buffer': sink.recv_buffer}})
+    # the first loops executed again later in this process (fresh Environment, fresh objects): the sender's events and the
+    # segments it emits are functions of the configuration and the path
+    again = 0
+    if not ctx.replay:
+        first = {}
+        for key, label, uc, top, t in units:
+            first[key] = t
+        for i, c in loops[:60]:
+            again += 1
+            for key, label, uc, t2 in loop_units(i, c, run_loop_group(c)):
+                t1 = first[key]
+                if t1[0].lines != t2[0].lines or t1[0].tx.log != t2[0].tx.log:
+                    d = first_diff(t1[0].lines, t2[0].lines) or (0, t1[0].tx.log[:3], t2[0].tx.log[:3])
+                    oracle_failures.append({'what': f'{label}the same closed loop executed a second time in this process gives another sender history: '
+                                                    f'event {d[0]}: first `{d[1]}`, again `{d[2]}`', 'signature': 'loop-second-execution-differs',
+                                            'case': clean(c), 'trace': t2[0].lines[:200]})
+                    break
     from py2lean import translate
     cov = {
         'evaluations': len(cases),
@@ -430,7 +518,7 @@ def run(ctx):
         'rule': 'sink: distinct arrival sequences that are not a plain in-order run of adjacent segments; closed loop: '
                 'distinct configurations in which at least one packet was really dropped or a segment retransmitted',
         'samples': samples,
-        'sink_sequences': len(sinks), 'closed_loops': len(loops),
+        'sink_sequences': len(sinks), 'closed_loops': len(loops), 'closed_loops_executed_a_second_time': again,
         'traces_validated_against_impl': len(cases) - len({json.dumps(d['case'], sort_keys=True) for d in disagreements}),
         'sender_observation_lines_compared': lines_compared,
         'operation_histogram': dict(sorted(hist.items())),
